@@ -322,7 +322,8 @@ package io
 //@   requires [three_bytes_per_unit_are_loaded] utf16Length <= (dec.tail - dec.head) / 3
 //@   let u0 = utf16Length
 //@   modifies dec.head, dec.Error
-//@   loop 1 invariant [within_three_bytes_per_unit] 0 <= off && utf16Length <= u0 && (u0 <= 0 || off <= 3 * (u0 - utf16Length)) && len(buf) == dec.tail - dec.head && dec.head == old(dec.head) && dec.tail == old(dec.tail)
+//@   loop 1 invariant [within_three_bytes_per_unit] 0 <= off && (u0 <= 0 ==> off == 0 && utf16Length == u0) && (u0 > 0 ==> 0 <= utf16Length && utf16Length <= u0 && off <= 3 * (u0 - utf16Length))
+//@   loop 1 invariant [window_untouched] len(buf) == dec.tail - dec.head && arr(buf) == arr(dec.buf) && off(buf) == off(dec.buf) + dec.head && dec.head == old(dec.head) && dec.tail == old(dec.tail) && same(dec.buf, old(dec.buf))
 //@   loop 1 invariant [sticky] old(dec.Error) != nil ==> dec.Error != nil
 //@   ensures [window_well_formed] old(dec.head) <= dec.head && dec.head <= dec.tail && dec.tail == old(dec.tail)
 //@   ensures [result_is_a_view_of_the_window] data == nil || (arr(data) == arr(dec.buf) && off(data) == off(dec.buf) + old(dec.head) && len(data) == dec.head - old(dec.head))
